@@ -712,6 +712,7 @@ def run_kinds(rep, kinds, tier_, rng, n_quick, n_thorough, precs_quick, precs_th
     ensure_meta()
     t0 = time.time()
     n = n_quick if tier_ == "quick" else n_thorough
+    n = int(os.environ.get("VERIF_B3_N", n))                 # debugging aid
     precs = precs_quick if tier_ == "quick" else precs_thorough
     only = [s for s in os.environ.get("VERIF_B3_KINDS", "").split(",") if s]
     if only:
